@@ -10,7 +10,7 @@ META = {
              'non-trivial when the record has >= 2 segments or a padded segment'),
     'required_obs': {
         'quick': ['tap-compared', 'segcount-1', 'segcount-2', 'segcount-3', 'segcount-4+', 'nonlast-shortened',
-                  'nonlast-padded', 'eflr-continuation', 'contract-evals-make_segment', 'contract-evals-make_segments', 'e2e-written-in-hc-context', 'e2e-after-rejected-call'],
+                  'nonlast-padded', 'eflr-continuation', 'contract-evals-make_segment', 'contract-evals-make_segments', 'e2e-written-in-hc-context', 'e2e-after-rejected-call', 'file-larger-than-16MiB-in-one-buffer'],
     },
     'exhaustive_windows': {
         'quick': ['record lengths 20,22,30,32,34,36,40,64,126,128,8192,16384 x body lengths k*cap+d, k in 0..4, d in -14..14 (>= 4)'],
